@@ -2,6 +2,7 @@ package main
 
 import (
 	"fmt"
+	"math/big"
 	"strings"
 	"unicode"
 
@@ -147,6 +148,13 @@ func pathsFor(d *D, depth int, prefix []string, out *[][]string) {
 	}
 }
 
+// f32D describes a float32 (by the float64 it converts to)
+func f32D(f float32) *D {
+	d := h.FloatD(float64(f))
+	d.Is32 = true
+	return d
+}
+
 func c01(c *Ctx) {
 	maxNodes := c.N(4, 5)
 	c.Rule = fmt.Sprintf("exhaustive: every document of <=%d nodes over objects (key alphabet %v, sibling keys distinct under folding), arrays of <=2 elements, null, true, 1.5, \"s\"; every key path walking existing keys in three casings plus an absent key per level, depth<=4; each document as map/slice values and as Go structs; rows: arrays of 1..4 objects whose elements spell the same key in different letter case, lack it or hold null / scalars / objects, each element in a Go carrier of its own (map[string]any, struct, named-key map, interface-key map, typed map), read with `$.rows.key` and `$.rows.key.sub`; random: documents of depth<=4 from the generator with key-only paths of depth 1..6 in random casing. Non-trivial = the path has >=1 key that exists at its level; distinct by (query, data).", maxNodes, keysC01)
@@ -185,6 +193,32 @@ func c01(c *Ctx) {
 	c.RunEvalCases()
 	unicodeStreamC01(c)
 	c.RunEvalCases()
+	// number leaves of every magnitude and Go kind, at depth 1..3, across an array, in map and struct
+	// carriers: the value stored there comes back, by value (whole floats beyond 2^63, 2^53+1, denormals,
+	// the limits of the integer kinds)
+	{
+		two63 := new(big.Int).Lsh(big.NewInt(1), 63)
+		maxU := new(big.Int).Sub(new(big.Int).Lsh(big.NewInt(1), 64), big.NewInt(1))
+		nums := []*D{h.FloatD(1e19), h.FloatD(9223372036854775808), h.FloatD(-9223372036854775808), h.FloatD(9223372036854777856), h.FloatD(-1e19), h.FloatD(1e100), h.FloatD(1.5e300),
+			h.FloatD(9007199254740993), h.FloatD(4294967296), h.FloatD(0.1), h.FloatD(1e-7), h.FloatD(5e-324), h.FloatD(-0.5), h.FloatD(123456789012345680000), h.FloatD(18446744073709551616),
+			f32D(1e19), f32D(0.25), f32D(16777216),
+			h.Int("int64", 9223372036854775807), h.Int("int64", -9223372036854775808), h.IntBig("uint64", maxU), h.IntBig("uint64", two63), h.Int("int8", -128), h.Int("uint8", 255), h.Int("int32", -2147483648),
+			{Tag: "d", Coef: new(big.Int).Mul(two63, big.NewInt(10)), Exp: 0}, {Tag: "d", Coef: big.NewInt(1), Exp: 30}, {Tag: "d", Coef: big.NewInt(-15), Exp: -25}}
+		for _, nv := range nums {
+			doc := h.Obj("n", nv, "a", h.Obj("b", nv, "c", h.Obj("d", nv)), "xs", h.SliceAny(h.Obj("v", nv), h.Obj("w", h.FloatD(1)), h.Obj("V", nv)))
+			for ci, dd := range []*D{doc, toStruct(doc)} {
+				for _, q := range []struct {
+					q    string
+					want *D
+				}{{"$.n", nv}, {"$.N", nv}, {"$.a.b", nv}, {"$.A.c.D", nv}, {"$.xs.v", h.SliceAny(nv, nv)}} {
+					ec := c.AddEval(q.q, dd, fmt.Sprintf("number-leaves:carrier%d", ci), true, true)
+					w := lres{kind: "found", val: h.Abs(q.want)}
+					ec.Check = func(o h.Outcome) string { return checkLookup(o, w) }
+				}
+			}
+		}
+		c.RunEvalCases()
+	}
 	// a struct with an exported field and an UNEXPORTED twin that differs only in letter case: the
 	// unexported field is not part of the document, the exported one is found under every casing
 	{
